@@ -39,7 +39,7 @@ type c15cCase struct {
 }
 
 func c15cValue(op c15cOp, i int) []byte {
-	p := c15Payload(c15Case{Size: op.ValueLen, Content: []string{"text", "random", "mixed", "zeros"}[int(op.Seed)%4], Seed: op.Seed + uint32(i)})
+	p := c15Payload(c15Case{Size: op.ValueLen, Content: []string{"text", "random", "mixed", "zeros"}[int(op.Seed%4)], Seed: op.Seed + uint32(i)})
 	return p
 }
 
